@@ -734,19 +734,12 @@ fn run_vm(script: &str, checks: bool) -> String {
     r.unwrap_or_else(|p| format!("panic {}", p))
 }
 
-/// acceptable bare-VM outcomes for a model result. A thrown string is either a `KotoError` carrying
-/// that string or (after crossing a generator boundary) a `StringError` with that message.
+/// the bare-VM outcome that corresponds to a model result
 fn mres_texts(m: &MRes) -> Option<Vec<String>> {
     Some(match m {
         MRes::Ok(c) => vec![format!("ok {}", c)],
         MRes::TypeErr(msg) => vec![format!("E:type {}", msg)],
-        MRes::Thrown(c) => {
-            let mut v = vec![format!("E:thrown {}", c)];
-            if let Some(b) = c.strip_prefix('s').and_then(kvh::unhex) {
-                v.push(format!("E:string {}", String::from_utf8_lossy(&b)));
-            }
-            v
-        }
+        MRes::Thrown(c) => vec![format!("E:thrown {}", c)],
         MRes::Stuck(_) => return None,
     })
 }
@@ -1393,7 +1386,7 @@ fn template(pos: &str, h: &Hint, x: &V) -> Prog {
             Some(2),
             bx(em(12)),
         ),
-        // a failed `yield` assertion reaches the consumer as a string error (run_iterator_next)
+        // a failed `yield` assertion reaches the consumer unchanged; caught, it is its message string
         "yield-failure-caught-typed" => {
             funs.push(FunDef { params: vec![(0, None)], out: hs, body: Body::Gen(vec![GStmt::Yld(E::Var(0)), GStmt::Exec(em(1))]) });
             E::Try(
@@ -2054,6 +2047,79 @@ fn cyclic_base_cases(cx: &mut Ctx) {
     }
 }
 
+/// Bounded-exhaustive graphs of one or two maps with metamaps, possibly cyclic: node 0 is the
+/// module's export map (`self` in a test function), node 1 a map `x` whose `@base` is `self`.
+/// Each (graph, subject) is one script, run in the worker child; the expected type name and the
+/// outcome of each hint come from the graph model (`cyc` requests: `typeNameG`, `checkG`).
+fn cyclic_graph_grid(cx: &mut Ctx) {
+    const HINTS: &[&str] = &["Foo", "Bar", "Baz", "Object", "Map", "Any", "Indexable", "Callable", "Qux"];
+    let ty0s: [(&str, &str); 3] = [("-", ""), ("x426172", "export @type = 'Bar'\n"), ("!", "export @type = 42\n")];
+    let ty1s: [Option<(&str, &str)>; 4] = [None, Some(("-", "")), Some(("x466f6f", ", @type: 'Foo'")), Some(("x42617a", ", @type: 'Baz'"))];
+    let mut w = kvh::worker::Worker::spawn(&["--worker".to_string()]);
+    let mut n_scripts = 0u64;
+    for (t0, t0_src) in ty0s {
+        for t1 in ty1s {
+            let base0s: &[Option<usize>] = if t1.is_some() { &[None, Some(0), Some(1)] } else { &[None, Some(0)] };
+            for base0 in base0s {
+                let subjects: &[usize] = if t1.is_some() { &[0, 1] } else { &[0] };
+                for subj in subjects {
+                    let mut nodes = format!("({} {})", t0, base0.map_or("-".to_string(), |b| b.to_string()));
+                    let mut script = String::from(t0_src);
+                    script.push_str("export @test cyc = ||\n");
+                    if let Some((t1n, t1_src)) = t1 {
+                        nodes.push_str(&format!(" ({} 0)", t1n));
+                        script.push_str(&format!("  x = {{@meta z: 0{}, @base: self}}\n", t1_src));
+                    }
+                    match base0 {
+                        Some(0) => script.push_str("  export @base = self\n"),
+                        Some(_) => script.push_str("  export @base = x\n"),
+                        None => {}
+                    }
+                    script.push_str(if *subj == 0 { "  s = self\n" } else { "  s = x\n" });
+                    script.push_str("  print repr(koto.type(s))\n");
+                    let mut reqs = vec![];
+                    for h in HINTS {
+                        script.push_str(&format!("  r = match s\n    _: {} then 1\n    _ then 2\n  print repr(r)\n", h));
+                        reqs.push(format!("cyc {} ({}) {}", sx_hint(&hint(h, false)), nodes, subj));
+                    }
+                    let resps = cx.drv.batch(&reqs);
+                    let mut expected = String::from("ok <fn> |");
+                    for (i, r) in resps.iter().enumerate() {
+                        let (ty, chk) = r.split_once(" chk=").unwrap_or(("", ""));
+                        if i == 0 {
+                            expected.push_str(&format!(" s{}", ty.strip_prefix("ty=").unwrap_or("?")));
+                        }
+                        expected.push_str(if chk == "1" { " i1" } else { " i2" });
+                    }
+                    let key = format!("cycgraph ({}) subject {}", nodes, subj);
+                    cx.rep.case(&key, true);
+                    cx.rep.bump(if base0.is_some() { "kind=base-graph:cyclic(worker)" } else { "kind=base-graph:acyclic(worker)" });
+                    n_scripts += 1;
+                    let reply = w.request(&kvh::hex(script.as_bytes()), std::time::Duration::from_secs(4));
+                    let observed = match &reply {
+                        kvh::worker::Reply::Ok(s) => s.clone(),
+                        kvh::worker::Reply::Timeout => "does not terminate (killed after 4 s)".to_string(),
+                        kvh::worker::Reply::Died(st) => format!("the process died ({})", st),
+                    };
+                    if observed != expected {
+                        cx.d_fail += 1;
+                        if cx.d_fail <= 5 {
+                            cx.rep.violation(
+                                "D",
+                                "C16:base-graph",
+                                json!({"graph": nodes, "subject": subj, "script": script, "impl": observed, "model": expected,
+                                       "hints": HINTS,
+                                       "note": "run with tests enabled; type name and hint checks on a (possibly cyclic) @base graph deviate from typeNameG/checkG (Model/Types.lean)"}),
+                            );
+                        }
+                    }
+                }
+            }
+        }
+    }
+    cx.rep.extra.insert("base_graph_scripts".into(), json!(n_scripts));
+}
+
 fn main() {
     if std::env::args().any(|a| a == "--worker") {
         worker_main();
@@ -2126,6 +2192,7 @@ fn main() {
 
     // 0b. cyclic @base chains (worker child)
     cyclic_base_cases(&mut cx);
+    cyclic_graph_grid(&mut cx);
 
     // 1. unit: type names and predicates
     let mut values = core_values();
@@ -2145,9 +2212,6 @@ fn main() {
             for opt in [false, true] {
                 let h = hint(name, opt);
                 for (vn, v) in &values {
-                    if *pos == "throw-through-generator" && !matches!(v, V::Str(_)) {
-                        continue; // other thrown values would need the display machinery (model: stuck)
-                    }
                     let p = template(pos, &h, v);
                     cx.push(&format!("grid:{}:{}{}:{}", pos, name, if opt { "?" } else { "" }, vn), &p);
                     n_grid += 1;
